@@ -30,7 +30,7 @@ pub fn parse_events(evs: &str) -> ParsedEvents {
             let b = if h.is_empty() { vec![] } else { p_bytes(h).unwrap() };
             p.chunks.push(b.len());
             p.data.extend(b);
-        } else if e == "e" {
+        } else if e == "e" || e == "E" {
             p.has_fault = true;
             p.ends_with_eof = true;
         } else if e == "p" {
